@@ -267,7 +267,7 @@ theorem chain_model_eq_ref {α β : Type} (A : ChainOps α) (B : ChainOps β) (R
     (hrule : ∀ a b, R a b → A.rule a = B.rule b ∧ A.idx a = B.idx b ∧ A.last a = B.last b)
     (hset : ∀ a b l, R a b → R (A.setLast a l) (B.setLast b l))
     (res bt : Nat) (as : List α) (bs : List β) (hR : List.Forall₂ R as bs) (t : Nat)
-    (hblk : ∀ a b, R a b → ∀ ms, t / nsPerMs ≤ ms → A.blocks a ms bt = B.blocks b ms bt) :
+    (hblk : ∀ a b, R a b → (B.rule b).kind = .reject → ∀ ms, t / nsPerMs ≤ ms → A.blocks a ms bt = B.blocks b ms bt) :
     (chainG A res bt as t).2 = (chainG B res bt bs t).2 ∧
     List.Forall₂ R (chainG A res bt as t).1 (chainG B res bt bs t).1 :=
   chainG_rel A B R hrule hset res bt as bs hR t hblk
